@@ -877,7 +877,8 @@ class AtomsCollection:
         else:
             info = {}
 
-        percentage_failed = (1 - len(structures) / len(dirlist)) * 100
+        # (an empty collection has nothing that could fail)
+        percentage_failed = (1 - len(structures) / len(dirlist)) * 100 if dirlist else 0.0
 
         if percentage_failed > 0:
 
